@@ -299,7 +299,7 @@ impl Svc {
 }
 
 pub fn runtime() -> tokio::runtime::Runtime {
-    tokio::runtime::Builder::new_current_thread().enable_time().start_paused(true).build().expect("runtime")
+    tokio::runtime::Builder::new_current_thread().enable_all().start_paused(true).build().expect("runtime")
 }
 
 pub fn sock4(ip: [u8; 4], port: u16) -> SocketAddr {
@@ -573,6 +573,22 @@ pub fn listen_config(mode: u64) -> ListenConfig {
     match mode {
         0 => ListenConfig::Ipv4 { ip: Ipv4Addr::new(127, 0, 0, 1), port: 9000 },
         1 => ListenConfig::Ipv6 { ip: Ipv6Addr::LOCALHOST, port: 9000 },
+        // the same three modes through sockets the application has created itself (must be called
+        // inside a runtime; the sockets are bound to ephemeral loopback ports and never used)
+        3 | 4 | 5 => {
+            let mk = |addr: &str| -> Option<std::sync::Arc<tokio::net::UdpSocket>> {
+                let s = std::net::UdpSocket::bind(addr).ok()?;
+                s.set_nonblocking(true).ok()?;
+                tokio::net::UdpSocket::from_std(s).ok().map(std::sync::Arc::new)
+            };
+            let v4 = if mode != 4 { mk("127.0.0.1:0") } else { None };
+            let v6 = if mode != 3 { mk("[::1]:0") } else { None };
+            if (mode != 4 && v4.is_none()) || (mode != 3 && v6.is_none()) {
+                // no such loopback address in this sandbox: fall back to the plain form of the mode
+                return listen_config(mode - 3);
+            }
+            ListenConfig::FromSockets { ipv4: v4, ipv6: v6 }
+        }
         _ => ListenConfig::DualStack {
             ipv4: Ipv4Addr::new(127, 0, 0, 1),
             ipv4_port: 9000,
